@@ -2050,6 +2050,16 @@ func (e *CoreExtension) filterNumberFormat(value interface{}, args ...interface{
 		}
 	}
 
+	// A negative number of decimals means none (fmt cannot print "%.-1f"), and
+	// fmt refuses precisions beyond a million: asking for more is an error, not
+	// a garbled format string or an attempt to allocate that many zeros
+	if decimals < 0 {
+		decimals = 0
+	}
+	if decimals > 1000000 {
+		return nil, fmt.Errorf("number_format: %d decimals are out of range", decimals)
+	}
+
 	// Format the number
 	format := "%." + strconv.Itoa(decimals) + "f"
 	str := fmt.Sprintf(format, num)
